@@ -71,7 +71,23 @@ def one_layout(cid, lay, B, rng, which):
                 if uniq and npar > n:
                     npar = n
                 xmap = OHV._calc_xmap(n, npar, uniq)
-                ohv = OHV._calc_ohvmat(P, hm, xmap, mem=rng.choice([1, 2, None]))
+                enc = rng.choice(["direct", "Subset", "Binary", "Integer", "Real"])
+                if enc == "direct":
+                    ohv = OHV._calc_ohvmat(P, hm, xmap, mem=rng.choice([1, 2, None]))
+                else:
+                    # the cross values held by a problem built through the factory of each decision encoding (separate code per class)
+                    import importlib
+                    pcls = getattr(importlib.import_module("pybrops.breed.prot.sel.prob.OptimalHaploidValueSelectionProblem"),
+                                   "OptimalHaploidValue%sSelectionProblem" % enc)
+                    nx = len(xmap)
+                    if enc == "Subset":
+                        sp = dict(ndecn=1, decn_space=np.arange(nx), decn_space_lower=np.repeat(0, 1), decn_space_upper=np.repeat(nx - 1, 1))
+                    else:
+                        lo = np.repeat(0.0 if enc == "Real" else 0, nx); up = np.repeat({"Real": 1.0, "Integer": 3, "Binary": 1}[enc], nx)
+                        sp = dict(ndecn=nx, decn_space=np.stack([lo, up]), decn_space_lower=lo, decn_space_upper=up)
+                    pr = pcls.from_pgmat_gpmod(npar, B, uniq, pg, gm, nobj=T, **sp)
+                    ohv = np.asarray(pr.ohvmat); xmap = np.asarray(pr.decn_space_xmap)
+                    c["ohvsrc"] = enc
                 ro, ok2 = ints(ohv)
                 c["crosses"] = np.asarray(xmap).astype(int).tolist(); c["ohv"] = ro.tolist(); c["hfin"] = c["hfin"] and ok2
                 sets = [sorted(rng.sample(range(n), rng.randrange(1, n + 1))) for _ in range(3)]
